@@ -385,6 +385,14 @@ func genReceiverCase(r *vh.Rand, id string, big bool, st map[string]int) *scenar
 // a slow but steady stream: k ticks after every chunk with k < timeout, the whole transfer
 // lasting longer than timeout + gc interval; nothing else happens. It must finalise.
 func genSteadyCase(r *vh.Rand, id string) *rcase {
+	for {
+		if c := tryGenSteadyCase(r, id); c != nil {
+			return c
+		}
+	}
+}
+
+func tryGenSteadyCase(r *vh.Rand, id string) *rcase {
 	c := &rcase{id: id, kind: "R", did: 1 + uint64(r.Intn(3)), slots: 128, steady: true}
 	c.to = 2 + uint64(r.Intn(6))
 	c.gc = 1 + uint64(r.Intn(3))
@@ -398,7 +406,7 @@ func genSteadyCase(r *vh.Rand, id string) *rcase {
 	}
 	payload := need*int(c.cs) + r.Intn(int(c.cs))
 	if !sc.addStream(r, uint64(1+r.Intn(2)), uint64(1+r.Intn(2)), uint64(5+r.Intn(3)), 100+uint64(r.Intn(3)), 1+uint64(r.Intn(4)), payload, exts) {
-		panic("steady case: sender failed")
+		return nil // two external files got the same id: the sender refuses; draw again
 	}
 	// a few ticks first so that the stream does not start at tick 0
 	c.ops = append(c.ops, op{kind: opTick, n: uint64(r.Intn(2 * int(c.to+c.gc)))})
@@ -460,6 +468,14 @@ func genGlueCase(r *vh.Rand, id string) *gcase {
 // complete streams of different snapshots (plus duplicates and out-of-order repeats, which
 // are ignored) to be fed by one goroutine per snapshot
 func genParallelCase(r *vh.Rand, id string) *rcase {
+	for {
+		if c := tryGenParallelCase(r, id); c != nil {
+			return c
+		}
+	}
+}
+
+func tryGenParallelCase(r *vh.Rand, id string) *rcase {
 	c := &rcase{id: id, kind: "R", did: 1 + uint64(r.Intn(3)), gc: 3, to: 9, slots: 128, par: true}
 	c.cs = 1024 + uint64(r.Intn(1024))
 	sc := &scenario{c: c}
@@ -471,7 +487,7 @@ func genParallelCase(r *vh.Rand, id string) *rcase {
 		}
 		// distinct keys: shard/replica/index vary with j
 		if !sc.addStream(r, uint64(1+j%2), uint64(1+(j/2)%2), uint64(5+r.Intn(3)), 100+uint64(j), 1+uint64(r.Intn(4)), r.Intn(5*int(c.cs)), exts) {
-			panic("parallel case: sender failed")
+			return nil
 		}
 	}
 	var lists [][]op
